@@ -221,8 +221,8 @@ class State:
             if k in ('key', 'multikey') and it['name'] == '+':
                 defaults = it.get('defaults', [])
                 if it['required'] and not v:
-                    if defaults:
-                        raise Any()
+                    # "every required ... wildcard map ... is filled": by the text - schema defaults
+                    # do not satisfy a required wildcard map (they only apply to optional ones)
                     raise Reject(lineno, 'missing-item')
                 pairs = v
                 if not pairs:
